@@ -199,7 +199,7 @@ pub fn run(ctx: &Ctx, acc: &mut Acc) {
                 // first frame that must not be delivered
                 let bad_from = if !knob.must_reject { usize::MAX } else { match knob.name {
                     "total-too-small" => base.frames.len() - 1,
-                    "total-too-large" => usize::MAX,
+                    "total-too-large" | "total-too-large-by-2^32" | "total-too-large-by-2^35" => usize::MAX,
                     "short-nonfinal-block-5" | "short-nonfinal-block-14" => 0,
                     "block>info-max" => { let mx = base.frames.iter().map(|f| f.pcm[0].len()).max().unwrap(); base.frames.iter().position(|f| f.pcm[0].len() == mx).unwrap() }
                     _ => fidx,
